@@ -392,7 +392,6 @@ def judge_and_report(ctx, caselist, rendered, name="RenderTrace_all"):
     per_kind = {}
     stages = {}
     odf_lost = {}
-    second_pass = 0
     for (i, r), run, v in zip(index, runs, verdicts):
         stats[v["verdict"]] += 1
         pk = per_kind.setdefault(r["kind"], {"runs": 0, "accepted": 0})
